@@ -42,6 +42,7 @@ def required(tier):
         "layout.rule": 500,
         "layout.rule_chars": 300,
         "layout.terminals_with_priority": 30,
+        "config.custom_ws_with_regex_metacharacters": 30,
         "layout.ws": 1000,
         "layout.custom_ws": 300,
         "augmented_production_checked": 100,
@@ -129,8 +130,22 @@ def parsers_for(text, kind, slr=False):
     return pg, glr, lr
 
 
+CUSTOM_WS_POOL = ["_~ ", "_~ ", ", -;", " \t\\\n", "]^ ", ".*_"]
+
+
+def set_custom_ws(ws):
+    """Layout characters of the custom_ws configuration (they are literal characters, whatever
+    they would mean in a regular expression)."""
+    global CUSTOM_WS, CUSTOM_FILLERS
+    CUSTOM_WS = ws
+    CUSTOM_FILLERS = [""] + list(ws) + [ws[:2], ws[1:] + ws[:1], ws[-1] * 2]
+
+
 def one_grammar(ctx, g, alphabet, maxlen):
     rng = ctx.rng
+    set_custom_ws(rng.choice([w for w in CUSTOM_WS_POOL if not set(w) & set(alphabet)]))
+    if CUSTOM_WS != "_~ ":
+        ctx.count("config.custom_ws_with_regex_metacharacters")
     if len(alphabet) >= 3 and maxlen > 3:
         maxlen = 3
     # layout terminals may carry a priority of their own (below or above the default): it only
@@ -182,7 +197,7 @@ def one_grammar(ctx, g, alphabet, maxlen):
         if rhs != [g.start, "STOP"]:
             ctx.violation("augmented-production-not-main-start", {"grammar": texts[k], "g": g.to_json()}, "after building the layout sub-parser productions[0].rhs is %s" % rhs)
             return
-    case0 = {"g": g.to_json(), "texts": texts, "slr": slr}
+    case0 = {"g": g.to_json(), "texts": texts, "slr": slr, "custom_ws": CUSTOM_WS}
     for w in cfg.all_strings(alphabet, maxlen):
         if not ctx.more():
             return
@@ -315,6 +330,7 @@ def ws_vs_rule(ctx, g, bws, brule, case, inp):
 
 def replay(case, ctx):
     g = cfg.G.from_json(case["g"])
+    set_custom_ws(case.get("custom_ws", "_~ "))
     mon = LRMonitor()
     mon.install()
     try:
